@@ -112,6 +112,24 @@ def pure_entry_points(ctx):
     return events
 
 
+def training_set_edits():
+    """fit, then rate with a caller-owned training set, edit it in place
+    (whole response vector / interior rows only / files of the directory),
+    rate again, and back"""
+    import itertools
+    fitted = [{"op": "apply", "pipe": "P1"},
+              {"op": "fit", "kw": {"model_key": "m_para"}}]
+    out = []
+    for grp in (["R_et_memA", "R_et_memB", "R_et_memC"],
+                ["R_rf_dirA", "R_rf_dirB"]):
+        for a, b in itertools.permutations(grp, 2):
+            out.append(list(fitted) + [{"op": "rate", "rater": a},
+                                       {"op": "rate", "rater": b},
+                                       {"op": "rate", "rater": a}])
+    out.append(list(fitted) + [{"op": "rate", "rater": "R_svr_memA"}])
+    return out
+
+
 def run(ctx):
     quick = ctx.tier == "quick"
     sl = {k: world.SLICES[k] for k in ("alias", "alias2", "pre", "pre2")}
@@ -121,7 +139,7 @@ def run(ctx):
         rand_weights=dict(mutate_pi=4, mutate_pl=3, fit=5, getinit=2,
                           rate=0.3, scan=0.1, alias_pl=3),
         walk_limit=250 if quick else None,
-        curves=("syn1", "rec1"))
+        curves=("syn1", "rec1", "syn2"), scripted=training_set_edits())
     if not quick:
         curve_check.repo_test_traces(ctx, "C10_")
     pure = pure_entry_points(ctx)
